@@ -160,47 +160,46 @@ def depth_rule(ctx: Ctx, rid: str) -> None:
 
 
 def drain_rule(ctx: Ctx, rid: str) -> None:
-    """ECALL drain window = the latches between EX's output and WB's input; its size
-    equals the stall duration requested while draining."""
+    """ECALL drain: EX holds an ecall while any latch between EX's output and WB's input is non-empty,
+    asks for a stall as long as that window, and runs process_ecall only once the window is empty.
+
+    The latch fields stall_signal / exit_code / flush_signal and the two effects are compared with the
+    stage table as normal forms (a search loop, `any(...)`, a flag or a helper all reduce to the same
+    form); the window itself is folded to concrete latch indices for the two values of
+    is_of_stalled_value."""
+    from .stagespec import datapath_rule, stage_flow
     m = ctx.model
-    r = ctx.rule(rid, "ECALL drain window is pipeline_registers[own+1(+stalled) : -1]; duration = window size")
+    datapath_rule(ctx, rid, section="drain", desc="ECALL drain window is pipeline_registers[own+1(+stalled) : -1]; duration = window size; "
+                                                  "process_ecall only once it is empty (normal forms vs stage table)")
+    r = ctx.rule(rid, "")
     beh = m.method("ExecuteStage", "behavior", own=True)
-    loops = [n for n in walk_no_nested(beh.node) if isinstance(n, ast.For) and isinstance(n.iter, ast.Subscript)
-             and isinstance(n.iter.value, ast.Name) and n.iter.value.id == "pipeline_registers"
-             and isinstance(n.iter.slice, ast.Slice)]
-    if len(loops) != 1:
-        raise AnalysisError("anchor vanished: the ECALL drain loop over a slice of pipeline_registers")
-    lp = loops[0]
-    sl = lp.iter.slice  # type: ignore[attr-defined]
+    fl = stage_flow(ctx, "ExecuteStage")
+    full = [x for x in fl.returns if isinstance(x.value, ast.Call) and x.value.keywords]
+    sl = None
+    if len(full) == 1:
+        kw = {k.arg: k.value for k in full[0].value.keywords}  # type: ignore[union-attr]
+        for n in ast.walk(kw.get("stall_signal", ast.Constant(value=None))):
+            if isinstance(n, ast.comprehension) and isinstance(n.iter, ast.Subscript) and isinstance(n.iter.slice, ast.Slice):
+                sl = n.iter.slice
+    if sl is None:
+        r.check(False, "EX.drain-window", beh.loc(), "the ECALL drain no longer scans a slice of pipeline_registers")
+        return
     res = {}
     for stalled in (0, 1):
         try:
-            lo = fold_in(m, beh.module, _subst_stalled(sl.lower, stalled), extra={"index_of_own_input_register": 1}) if sl.lower else None
-            hi = fold_in(m, beh.module, sl.upper, extra={"index_of_own_input_register": 1}) if sl.upper else None
+            lo = fold_in(m, beh.module, _subst_stalled(sl.lower, stalled), extra={beh.params[2]: 1}) if sl.lower else None
+            hi = fold_in(m, beh.module, _subst_stalled(sl.upper, stalled), extra={beh.params[2]: 1}) if sl.upper else None
         except Unknown as exc:
-            raise AnalysisError(f"{beh.loc(lp)}: drain slice does not fold: {exc}")
+            raise AnalysisError(f"{beh.loc()}: drain slice does not fold: {exc}")
         res[stalled] = list(range(5))[lo:hi]
     ok = res[0] == [2, 3] and res[1] == [3]
-    r.check(ok, "EX.drain-window", beh.loc(lp),
+    r.check(ok, "EX.drain-window", beh.loc(),
             f"drain loop scans latches {res[0]} (not stalled) / {res[1]} (stalled); expected [2, 3] / [3]: "
             "the ecall must wait for every older instruction still in MEM or WB", res)
-    # any non-empty instruction there requests the stall
-    body = " ".join(ast.unparse(lp).split())
-    r.check("EmptyInstruction" in body and "StallSignal" in body, "EX.drain-test", beh.loc(lp),
-            "drain loop no longer stalls on a non-empty older instruction")
-    sc = [(c, v) for c, v in _stall_consts(beh)]
-    for c, v in sc:
+    for c, v in _stall_consts(beh):
         r.check(v == len(res[0]), "EX.StallSignal", beh.loc(c),
                 f"ecall drain requests a {v}-cycle stall but its window holds {len(res[0])} latches",
                 {"duration": v, "window": res[0]})
-    # the side effect happens only when no stall was requested
-    ok = False
-    for n in walk_no_nested(beh.node):
-        if isinstance(n, ast.If) and " ".join(ast.unparse(n.test).split()) in ("stall_signal is None",):
-            if any(isinstance(c.func, ast.Attribute) and c.func.attr == "process_ecall" for st in n.body for c in calls_in(st)):
-                ok = True
-    r.check(ok, "EX.ecall-after-drain", beh.loc(),
-            "process_ecall is no longer confined to the branch where the drain loop requested no stall")
 
 
 def _subst_stalled(e: ast.AST, v: int) -> ast.AST:
